@@ -341,7 +341,10 @@ impl<Payload: for<'de> Deserialize<'de>> JWT<Payload> {
 
         let payload_part = parts.next()
             .ok_or_else(Response::Unauthorized)?;
-        let payload: Payload = part_value(payload_part)?;
+        let payload_bytes = crate::util::base64_url_decode(payload_part)
+            .map_err(|_| Response::BadRequest().with_text("invalid base64"))?;
+        let payload: Payload = ::serde_json::from_slice(&payload_bytes)
+            .map_err(|_| Response::BadRequest().with_text("invalid json"))?;
         let now = crate::util::unix_timestamp();
         /* NumericDate is a JSON number that can be negative or non-integer; anything else is malformed */
         if payload.get("nbf").is_some_and(|nbf| nbf.as_f64().is_none_or(|nbf| nbf > now as f64)) {
@@ -395,7 +398,10 @@ impl<Payload: for<'de> Deserialize<'de>> JWT<Payload> {
             return Err(Response::Unauthorized().with_text(UNAUTHORIZED_MESSAGE))
         }
 
-        let payload = ::serde_json::from_value(payload).map_err(|_| Response::InternalServerError())?;
+        /* the typed payload is read from the signed bytes themselves: the detour through `Value`
+           loses what `Value` cannot hold ( integers beyond 64 bits ), and such a token, issued by
+           this very configuration, was refused with 500 */
+        let payload = ::serde_json::from_slice(&payload_bytes).map_err(|_| Response::InternalServerError())?;
         Ok(payload)
     }
 }
